@@ -45,7 +45,8 @@ fn gen_single(ch: &mut Ch, thorough: bool) -> Option<Case> {
         return None;
     }
     let form = match ctx {
-        C::Alone | C::FirstOf2 => KeyForm::Method,
+        C::Alone => KeyForm::Inherent,
+        C::FirstOf2 => KeyForm::Method,
         C::LastOf2 => KeyForm::Twice,
         C::MiddleOf3 => KeyForm::Nested,
     };
@@ -72,7 +73,7 @@ fn gen_multi(ch: &mut Ch, thorough: bool) -> Option<Case> {
     let mut fields = Vec::new();
     for i in 0..n {
         let c = *ch.of(&alpha);
-        let mut f = FieldSpec { ty: FTy::V, dom: 3, combo: c, form: [KeyForm::Method, KeyForm::Twice, KeyForm::Nested][i % 3], identity: None };
+        let mut f = FieldSpec { ty: FTy::V, dom: 3, combo: c, form: [KeyForm::Inherent, KeyForm::Twice, KeyForm::Nested, KeyForm::Method][i % 4], identity: None };
         if c.is_plain() && i % 2 == 1 {
             f.ty = [FTy::U8, FTy::OptT, FTy::WT][(i / 2) % 3];
         }
@@ -82,12 +83,12 @@ fn gen_multi(ch: &mut Ch, thorough: bool) -> Option<Case> {
         return None;
     }
     let ts = match shape {
-        0 => TypeSpec { is_enum: false, variants: vec![VariantSpec { kind: VKind::Tuple, fields }], style: KeyStyle::Distinct, shared_arg: None },
-        1 => TypeSpec { is_enum: false, variants: vec![VariantSpec { kind: VKind::Named, fields }], style: KeyStyle::Distinct, shared_arg: None },
-        2 => TypeSpec { is_enum: true, variants: vec![VariantSpec { kind: VKind::Tuple, fields: fields.clone() }, VariantSpec { kind: VKind::Unit, fields: vec![] }, VariantSpec { kind: VKind::Named, fields }], style: KeyStyle::Distinct, shared_arg: None },
+        0 => TypeSpec { is_enum: false, variants: vec![VariantSpec { kind: VKind::Tuple, fields }], style: KeyStyle::Distinct, shared_arg: None, discr: 0 },
+        1 => TypeSpec { is_enum: false, variants: vec![VariantSpec { kind: VKind::Named, fields }], style: KeyStyle::Distinct, shared_arg: None, discr: 0 },
+        2 => TypeSpec { is_enum: true, variants: vec![VariantSpec { kind: VKind::Tuple, fields: fields.clone() }, VariantSpec { kind: VKind::Unit, fields: vec![] }, VariantSpec { kind: VKind::Named, fields }], style: KeyStyle::Distinct, shared_arg: None, discr: 0 },
         _ => {
             let rev: Vec<FieldSpec> = fields.iter().rev().cloned().collect();
-            TypeSpec { is_enum: true, variants: vec![VariantSpec { kind: VKind::Unit, fields: vec![] }, VariantSpec { kind: VKind::Named, fields }, VariantSpec { kind: VKind::Tuple, fields: rev }, VariantSpec { kind: VKind::Tuple, fields: vec![] }], style: KeyStyle::Distinct, shared_arg: None }
+            TypeSpec { is_enum: true, variants: vec![VariantSpec { kind: VKind::Unit, fields: vec![] }, VariantSpec { kind: VKind::Named, fields }, VariantSpec { kind: VKind::Tuple, fields: rev }, VariantSpec { kind: VKind::Tuple, fields: vec![] }], style: KeyStyle::Distinct, shared_arg: None, discr: 0 }
         }
     };
     Some(Case { gen: "multi", vector: ch.vector(), ts, derived, entry })
